@@ -6,7 +6,7 @@ ID = "C04"
 LEVEL = "proof"
 RULE = ("bounded-exhaustive histories over a 14-operation alphabet (8 list mutators, set_version, set_nlocktime, one sighash per "
         "cache-filling flag class: 0x41 fills all three slots, 0x42 and 0x43 the prevouts slot, 0xc1 the outputs slot) up to length 3 "
-        "(quick: all of length <= 2 and a sample of length 3) / 4 (thorough), random histories of length 5-60 over all 14 flags, clone, "
+        "(quick: all of length <= 2 and a sample of length 3) / 4 (thorough: all of length <= 3, of length 4 every history that ends in a sighash step after an earlier one, plus a sample), random histories of length 5-60 over all 14 flags, clone, "
         "all mutators with in-range positions, out-of-range sighash indices, and a few panicking (API misuse) histories; every step compares "
         "preimage, serialisation, fresh-copy preimage and the three cache slots (hook); non-trivial = the history contains a sighash "
         "step that returns a preimage; distinct by (op, arguments)")
@@ -99,19 +99,20 @@ def generate(rng, tier):
             rest = [s for s in seqs if not (s[0] >= 10 and s[2] >= 10 and s[1] < 10)]
             seqs = core + rng.sample(rest, 700)
         if tier == "thorough" and n == 4:
-            # every history that ends in a sighash step (a final mutator shows nothing new), others sampled
-            core = [s for s in seqs if s[3] >= 10]
-            rest = [s for s in seqs if s[3] < 10]
-            seqs = core + rng.sample(rest, 3000)
+            # every history that ends in a sighash step and has an earlier one (a cache can only go stale after it was filled), others sampled
+            interesting = lambda s: s[3] >= 10 and any(k >= 10 for k in s[:3])
+            core = [s for s in seqs if interesting(s)]
+            rest = [s for s in seqs if not interesting(s)]
+            seqs = core + rng.sample(rest, 1500)
         for s in seqs:
             Hs([A[k] for k in s])
     # other starting shapes for the short histories
     for (nin, nout) in [(1, 1), (3, 1), (1, 3)]:
         t = G.mk_tx(rng, nin, nout).hex()
-        for s in rng.sample(list(itertools.product(range(14), repeat=3)), 60 if tier == "quick" else 500):
+        for s in rng.sample(list(itertools.product(range(14), repeat=3)), 60 if tier == "quick" else 300):
             Hs([A[k] for k in s], t)
     # random long histories
-    for _ in range(70 if tier == "quick" else 800):
+    for _ in range(70 if tier == "quick" else 500):
         t = base_tx(rng).hex()
         Hs(random_history(rng, rng.randrange(5, 61)), t)
     # API misuse: out-of-range positions panic (also after a sighash call)
